@@ -113,8 +113,13 @@ class _World:
         self.params = []    # model param id -> ('w', rx_root) | ('o', inst, name) | ('t',)
         self.log = []
         self.nwatch = 0
+        self.holders = []   # Parameterized instances whose parameter `v` holds an expression as a reference
 
     def arg(self, a):
+        if 'L' in a:                      # a list holding references: resolve_ref(arg, recursive=True)
+            return [self.arg(x) for x in a['L']]
+        if 'S' in a:                      # a slice whose bounds are references
+            return slice(self.arg(a['S'][0]), self.arg(a['S'][1]))
         if 'l' in a:
             return dec(a['l'])
         if 'n' in a:
@@ -212,11 +217,28 @@ def run_impl(case):
                 except Exception as e:
                     err = exc_name(e)
                 steps.append({'k': 'set', 'calls': list(w.log), 'e': err})
+                if err and w.holders:
+                    break        # the model ends a program with reference holders at an escaping exception
             elif s == 'read':
                 try:
                     steps.append({'k': 'read', 'v': enc(w.nodes[st['n']].rx.value)})
                 except Exception as e:
                     steps.append({'k': 'readErr', 'e': exc_name(e)})
+            elif s == 'ref':
+                from param.parameterized import resolve_ref
+                node = w.nodes[st['n']]
+                if not resolve_ref(node):
+                    steps.append({'k': 'bad'})       # without dependencies the rx is stored as a plain value
+                    break
+                cls = type('H', (param.Parameterized,), {'v': param.Parameter(default=None, allow_refs=True)})
+                try:
+                    w.holders.append(cls(v=node))
+                    steps.append({'k': 'created'})
+                except Exception as e:
+                    steps.append({'k': 'createErr', 'e': exc_name(e)})
+                    break
+            elif s == 'readref':
+                steps.append({'k': 'read', 'v': enc(w.holders[st['h']].v)})
             else:
                 raise RuntimeError('unknown statement ' + s)
         return {'steps': steps}
@@ -235,10 +257,19 @@ def _allocs(st):
     return NODES_OF.get(s, 0), (1 if s in ('lit', 'where') else len(st['vs']) if s == 'obj' else 0)
 
 
+def _flat(a):
+    """atomic operands of an operand (containers are traversed like resolve_ref(recursive=True) does)"""
+    if 'L' in a:
+        return [y for x in a['L'] for y in _flat(x)]
+    if 'S' in a:
+        return [y for x in a['S'] for y in _flat(x)]
+    return [a]
+
+
 def _args_of(st):
     s = st['s']
     if s in ('op', 'meth', 'bind'):
-        return list(st['args'])
+        return [y for a in st['args'] for y in _flat(a)]
     if s == 'where':
         return [st['c'], st['x'], st['y']]
     return []
@@ -261,7 +292,7 @@ def where_refs(prog):
     fam = where_family(prog)
     out = []
     for i, st in enumerate(prog):
-        if st['s'] == 'watch' and st['n'] in fam:
+        if st['s'] in ('watch', 'ref') and st['n'] in fam:
             out.append(i)
         elif any('n' in a and a['n'] in fam for a in _args_of(st)):
             out.append(i)
@@ -312,6 +343,12 @@ class _Shadow:
         return self.nodes[nid]()
 
     def arg_fn(self, a):
+        if 'L' in a:
+            fs = [self.arg_fn(x) for x in a['L']]
+            return lambda fs=fs: [f() for f in fs]
+        if 'S' in a:
+            lo, hi = self.arg_fn(a['S'][0]), self.arg_fn(a['S'][1])
+            return lambda lo=lo, hi=hi: slice(lo(), hi())
         if 'l' in a:
             return lambda v=a['l']: dec(v)
         if 'n' in a:
@@ -454,10 +491,10 @@ TABLE = {
             [('not_', [], 'bool'), ('bool', [], 'bool'), ('pipe:str', [], 'str'), ('is_', ['id'], 'bool'),
              ('add', [_I], _I), ('inv', [], _I)],
     'str': [('add', ['str'], 'str'), ('radd', ['!str'], 'str'), ('mul', ['k'], 'str'), ('rmul', ['k'], 'str'),
-            ('getitem', [_I], 'str'), ('len', [], _I), ('m:upper', [], 'str'), ('m:count', ['str'], _I),
+            ('getitem', [_I], 'str'), ('getitem', ['slice'], 'str'), ('len', [], _I), ('m:upper', [], 'str'), ('m:count', ['str'], _I),
             ('m:index', ['str'], _I), ('in_', ['str'], 'bool'), ('eq', ['str'], 'bool'), ('lt', ['str'], 'bool'),
             ('map:add', ['L:z'], 'any'), ('bool', [], 'bool'), ('rx_or', ['str'], 'str'), ('not_', [], 'bool')],
-    'ilist': [('add', ['ilist'], 'ilist'), ('mul', ['k'], 'ilist'), ('getitem', [_I], _I), ('len', [], _I),
+    'ilist': [('add', ['ilist'], 'ilist'), ('mul', ['k'], 'ilist'), ('getitem', [_I], _I), ('getitem', ['slice'], 'ilist'), ('pipe:add', ['ilist'], 'ilist'), ('len', [], _I),
               ('pipe:sum', [], _I), ('map:add', [_I], 'ilist'), ('map:neg', [], 'ilist'), ('m:count', [_I], _I),
               ('m:index', [_I], _I), ('eq', ['ilist'], 'bool'), ('lt', ['ilist'], 'bool'), ('bool', [], 'bool'),
               ('not_', [], 'bool'), ('radd', ['!ilist'], 'ilist')],
@@ -475,9 +512,12 @@ class _Gen:
         self.ntype = {}
         self.fam = set()
         self.nwatch = 0
+        self.nref = 0
+        self.supp = {}        # node id -> inputs the expression mentions (static)
+        self.prog_allow_ref = rng.random() < 0.35
 
     # -- operands
-    def operand(self, t):
+    def operand(self, t, container=False):
         rng = self.rng
         if t == 'k':
             return {'l': rng.choice([0, 1, 2, 2, 3])}
@@ -485,8 +525,13 @@ class _Gen:
             return {'l': rng.choice([None, True, False, 0, 1])}
         if t.startswith('L:'):
             return {'l': t[2:]}
+        if t == 'slice':
+            bound = lambda: ({'l': None} if rng.random() < 0.25 else self.operand('int'))
+            return {'S': [bound(), bound()]}
         only_plain = t.startswith('!')          # reflected forms: the left operand must not be an rx
         t = t.lstrip('!')
+        if t == 'ilist' and container and not only_plain and rng.random() < 0.35:
+            return {'L': [self.operand('int') for _ in range(rng.randint(1, 3))]}
         r = rng.random()
         nodes = [n for n in self.sh.user if self.ntype[n] == t and (self.allow_where_ref or n not in self.fam)]
         params = [p for p, pt in enumerate(self.ptype) if pt == t and self.sh.kind[p] == 'obj']
@@ -511,6 +556,17 @@ class _Gen:
         if k:
             new = len(sh.nodes) - 1
             self.ntype[new] = rtype
+            sup = set()
+            if st['s'] == 'lit':
+                sup = {len(sh.vals) - 1}
+            elif st['s'] == 'rootp':
+                sup = {st['p']}
+            else:
+                if 'n' in st:
+                    sup |= self.supp.get(st['n'], set())
+                for a in _args_of(st):
+                    sup |= self.supp.get(a['n'], set()) if 'n' in a else ({a['p']} if 'p' in a else set())
+            self.supp[new] = sup
             if st['s'] == 'where' or (st['s'] in ('op', 'meth') and st['n'] in self.fam):
                 self.fam.update(range(mark[0], len(sh.nodes)))
         if st['s'] == 'lit':
@@ -559,7 +615,7 @@ class _Gen:
             rt = 'any'
         else:
             form, ots, rt = rng.choice(TABLE[t])
-        args = [self.operand(o) for o in ots]
+        args = [self.operand(o, container=not form.startswith('m:')) for o in ots]
         if form.startswith('m:'):
             return self.push({'s': 'meth', 'n': subj, 'op': form[2:], 'args': args}, rt)
         return self.push({'s': 'op', 'n': subj, 'op': form, 'args': args}, rt)
@@ -599,9 +655,20 @@ class _Gen:
                 nodes = [n for n in self.sh.user if self.allow_where_ref or n not in self.fam]
                 self.push({'s': 'watch', 'n': rng.choice(nodes)})
                 self.nwatch += 1
+            elif r < 0.62 and self.prog_allow_ref and self.nref < 2:
+                # a Parameter holding an expression as a reference; the expression must evaluate now
+                nodes = [n for n in self.sh.user if self.supp.get(n) and (self.allow_where_ref or n not in self.fam)
+                         and not self.raises_now(n)]
+                if nodes:
+                    self.push({'s': 'ref', 'n': rng.choice(nodes)})
+                    self.nref += 1
+            elif r < 0.70 and self.nref:
+                self.push({'s': 'readref', 'h': rng.randrange(self.nref)})
             else:
                 self.push({'s': 'read', 'n': rng.choice(self.sh.user)})
         # always end with a read of everything a user holds
+        for h in range(self.nref):
+            self.prog.append({'s': 'readref', 'h': h})
         for n in self.sh.user[-4:]:
             self.prog.append({'s': 'read', 'n': n})
         return {'prog': self.prog}
@@ -652,7 +719,7 @@ def _directed():
     for t, rows in TABLE.items():
         for form, ots, _ in rows:
             v0, v1 = sample[t]
-            prog = [lit(v0), op(0, form, *[L(argval[o]) for o in ots])]
+            prog = [lit(v0), op(0, form, *[({'S': [L(0), L(2)]} if o == 'slice' else L(argval[o])) for o in ots])]
             new = 2 if form.startswith('m:') is False else 3
             prog += [rd(new), st(0, v1), rd(new), rd(new), st(0, v0), rd(new)]
             out.append({'prog': prog})
@@ -661,6 +728,23 @@ def _directed():
                 a0, a1 = sample[ots[0]]
                 out.append({'prog': [lit(v0), lit(a0), op(0, form, N(1)), rd(new + 1), st(1, a1), rd(new + 1), st(0, v1), rd(new + 1)]})
                 out.append({'prog': [lit(v0), {'s': 'obj', 'vs': [a0]}, op(0, form, P(1)), rd(new), st(1, a1), rd(new), st(0, v1), rd(new)]})
+    # references nested in a container operand: list operand, slice bounds (resolve_ref(arg, recursive=True))
+    out.append({'prog': [lit([1]), lit(5), {'s': 'obj', 'vs': [7]}, op(0, 'add', {'L': [N(1), L(10), P(2)]}), rd(3), st(1, 6), rd(3),
+                         st(2, 8), rd(3), {'s': 'watch', 'n': 3}, st(1, 0), st(0, [2]), rd(3)]})
+    out.append({'prog': [lit('abcabc'), lit(1), lit(4), op(0, 'getitem', {'S': [N(1), N(2)]}), rd(4), st(2, 2), rd(4), st(1, 0), rd(4),
+                         st(1, 'x'), rd(4), st(1, None), rd(4), st(0, 'cc'), rd(4)]})
+    out.append({'prog': [lit(3), lit(1), lit(2), op(0, 'in_', {'L': [N(1), N(2)]}), rd(4), st(2, 3), rd(4), st(2, 0), rd(4), st(0, 0), rd(4)]})
+    out.append({'prog': [lit([0, 1, 2, 3]), {'s': 'obj', 'vs': [1]}, op(0, 'getitem', {'S': [P(1), L(None)]}), op(2, 'pipe:add', {'L': [P(1)]}),
+                         rd(4), st(1, 3), rd(4), rd(2)]})
+    # a Parameter holding an expression as a reference mirrors it: operand input, root input, read-populated cache
+    out.append({'prog': [lit('id-'), lit('a'), op(0, 'add', N(1)), rd(3), {'s': 'ref', 'n': 3}, {'s': 'readref', 'h': 0}, st(1, 'b'),
+                         {'s': 'readref', 'h': 0}, rd(3), st(0, 'no-'), {'s': 'readref', 'h': 0}, st(1, 'b'), {'s': 'readref', 'h': 0}]})
+    out.append({'prog': [lit(2), lit(10), op(0, 'mul', N(1)), op(3, 'add', L(1)), rd(5), {'s': 'ref', 'n': 5}, {'s': 'ref', 'n': 3},
+                         {'s': 'watch', 'n': 5}, st(1, 5), {'s': 'readref', 'h': 0}, {'s': 'readref', 'h': 1}, st(0, 3),
+                         {'s': 'readref', 'h': 0}, {'s': 'readref', 'h': 1}, rd(5)]})
+    out.append({'prog': [{'s': 'obj', 'vs': [1, 2]}, {'s': 'bind', 'f': 'add', 'args': [P(0), P(1)]}, {'s': 'ref', 'n': 0},
+                         st(1, 5), {'s': 'readref', 'h': 0}, op(0, 'mul', P(0)), {'s': 'ref', 'n': 2}, st(0, 3),
+                         {'s': 'readref', 'h': 0}, {'s': 'readref', 'h': 1}]})
     # error, cached error, recovery; an error below a derived node
     out.append({'prog': [lit(0), op(0, 'rfloordiv', L(10)), rd(2), rd(2), st(0, 5), rd(2), st(0, 0), rd(2), st(0, 2),
                          op(2, 'add', L(1)), rd(4), st(0, 0), rd(4), rd(2), st(0, 1), rd(4)]})
@@ -750,7 +834,7 @@ def cases(rng, tier, worker, nworkers):
 COVERAGE_TARGETS = ['form:' + f for f in ALL_FORMS] + [
     'resolve:cache-hit', 'resolve:dirty', 'resolve:dirty+dirty_obj', 'resolve:error-cached', 'read:raises', 'read:value',
     'set:changed', 'set:identical', 'set:equal-not-identical', 'set:callbacks', 'set:raises',
-    'consumer:trigger_x', 'consumer:trigger_y', 'consumer:watch', 'op:reverse', 'arg:rx', 'arg:parameter', 'arg:literal',
+    'consumer:trigger_x', 'consumer:trigger_y', 'consumer:watch', 'consumer:sync_refs', 'ref:created', 'readref:value', 'op:reverse', 'arg:rx', 'arg:parameter', 'arg:literal', 'arg:list-of-references', 'arg:slice-of-references',
     'op:on-where', 'op:on-bind', 'op:on-root', 'op:on-derived', 'op:createErr', 'meth:created', 'bind:created', 'where:created',
     'rootp:created', 'read:where-family', 'read:bind-family', 'recovered-after-error', 'where-ref-free', 'where-referenced']
 
@@ -759,6 +843,11 @@ def tags(case, impl):
     prog = case['prog']
     t = ['where-referenced' if where_refs(prog) else 'where-ref-free', f'len={min(len(prog) // 10 * 10, 30)}+']
     for s in prog:
+        for a in s.get('args', []):
+            if 'L' in a:
+                t.append('arg:list-of-references' if any('l' not in x for x in a['L']) else 'arg:list-of-literals')
+            elif 'S' in a:
+                t.append('arg:slice-of-references' if any('l' not in x for x in a['S']) else 'arg:slice-of-literals')
         if s['s'] == 'op':
             t.append('form:' + s['op'])
         elif s['s'] == 'meth':
@@ -802,6 +891,10 @@ def _renumber(st, n0, nk, p0, pk):
         return p - pk if p >= p0 + pk else p
 
     def arg(a):
+        if 'L' in a:
+            return {'L': [arg(x) for x in a['L']]}
+        if 'S' in a:
+            return {'S': [arg(x) for x in a['S']]}
         if 'n' in a:
             return {'n': node(a['n'])}
         if 'p' in a:
@@ -830,6 +923,11 @@ def _drop(prog, i):
     rest = [_renumber(s, nid, nk, pid, pk) for s in prog[i + 1:]]
     if any(r is None for r in rest):
         return None
+    if prog[i]['s'] == 'ref':                 # holder numbers shift
+        h = sum(1 for s in prog[:i] if s['s'] == 'ref')
+        if any(s['s'] == 'readref' and s['h'] == h for s in rest):
+            return None
+        rest = [dict(s, h=s['h'] - 1) if s['s'] == 'readref' and s['h'] > h else s for s in rest]
     return prog[:i] + rest
 
 
@@ -845,7 +943,15 @@ def shrink(case):
             yield {'prog': p}
     for i, s in enumerate(prog):
         # replace an operand that is an expression / parameter by a literal
-        for j, a in enumerate(_args_of(s)):
+        for j, a in enumerate(s.get('args', [])):
+            if 'L' in a:       # flatten a container operand step by step
+                for k2 in range(len(a['L'])):
+                    if 'l' not in a['L'][k2]:
+                        a2 = {'L': [L(1) if q == k2 else x for q, x in enumerate(a['L'])]}
+                        yield {'prog': prog[:i] + [dict(s, args=[a2 if k == j else x for k, x in enumerate(s['args'])])] + prog[i + 1:]}
+                continue
+            if 'S' in a:
+                continue
             if 'l' not in a and s['s'] in ('op', 'meth', 'bind'):
                 for v in (1, 'a', [1]):
                     s2 = dict(s, args=[L(v) if k == j else x for k, x in enumerate(s['args'])])
